@@ -71,7 +71,7 @@ static std::string describe(const Ev & e)
   return s + "], " + std::to_string(e.ndraws) + " deviates";
 }
 
-static std::string scheme_check(const SchemeRow & row, int nphase)
+static std::string scheme_check(const SchemeRow & row, int nphase, bool deep)
 {
   long execs = 0, distinct = 0;
   std::set<std::string> sigs;
@@ -107,6 +107,31 @@ static std::string scheme_check(const SchemeRow & row, int nphase)
             f[j] = w;
             runs.push_back(f);
           }
+    if (deep) {
+      // thorough tier: pairs over the first eight positions and triples over the first four (deviation bound 3 where
+      // branch selection, daughter selection and the first transition are decided)
+      for (size_t i = 0; i < 8; i++)
+        for (size_t j = std::max<size_t>(i + 1, 5); j < 8; j++)
+          for (double v : GRID)
+            for (double w : GRID) {
+              Forced f;
+              f[i] = v;
+              f[j] = w;
+              runs.push_back(f);
+            }
+      for (size_t i = 0; i < 4; i++)
+        for (size_t j = i + 1; j < 4; j++)
+          for (size_t k = j + 1; k < 4; k++)
+            for (double u : GRID)
+              for (double v : GRID)
+                for (double w : GRID) {
+                  Forced f;
+                  f[i] = u;
+                  f[j] = v;
+                  f[k] = w;
+                  runs.push_back(f);
+                }
+    }
     for (auto & f : runs) {
       Ev a = P.shot(f);
       Ev b = direct(row, f, PHASE);
@@ -189,8 +214,9 @@ int main(int argc, char ** argv)
   }
   if (mode == "scheme") {
     int nphase = argc > 2 ? atoi(argv[2]) : 2;
+    bool deep = argc > 3 && std::string(argv[3]) == "deep";
     size_t n = sizeof SCHEMES / sizeof SCHEMES[0];
-    vx::run_pool(n, 16, 900, [&](size_t i) { return scheme_check(SCHEMES[i], nphase); }, [&](size_t, const std::string & r) { printf("%s\n", r.c_str()); },
+    vx::run_pool(n, 16, 2400, [&](size_t i) { return scheme_check(SCHEMES[i], nphase, deep); }, [&](size_t, const std::string & r) { printf("%s\n", r.c_str()); },
                  [&](size_t i, const std::string & how) { printf("{\"name\":%s,\"crashed\":%s}\n", vx::jstr(SCHEMES[i].name).c_str(), vx::jstr(how).c_str()); });
     return 0;
   }
